@@ -87,7 +87,7 @@ def run(ctx):
     # second harness: linearize / relative_error / intervalize on expression trees (6 configurations)
     h2 = ctx.compile_harness("c12_linearize.cc", flags=("-frounding-math",))
     journal2 = os.path.join(wd, "journal-lin.txt")
-    ncount = 600 if ctx.tier == "quick" else 15000
+    ncount = 1000 if ctx.tier == "quick" else 15000
     rc, _, err = ctx.run([h2, "--seed", str(seed), "--count", str(ncount)], stdout_path=journal2, timeout=1500)
     if rc != 0:
         ctx.fatal("linearize harness failed rc=%s %s" % (rc, (err or "")[-500:]))
